@@ -157,6 +157,7 @@ static void step(Vec& v, M& m, int op, int base)
         {
             const usize n = verif_nondet_size(), b = verif_nondet_size();
             verif_assume(n <= KMAX && b <= BMAX && b >= live_payload<LT>(m));
+            verif_assume(LT::NVARY != 0 || b == 0);  // the byte budget only exists for lists with a VaryingSize parameter
             const Snap s = snap(v, m);
             const usize mem_before = v.memory_consumption();
             v.reserve(n, b);
